@@ -139,8 +139,9 @@ TLC_JAR = "/opt/veriftools/tla/tla2tools.jar:/opt/veriftools/tla/CommunityModule
 
 def _tlc_cmd(spec, cfg, extra, workers, heap=None, deque=False):
     java = ["java", "-XX:+UseParallelGC"]
-    if heap:
-        java.append("-Xmx" + heap)
+    # an explicit ceiling: the JVM default is a quarter of the machine per process, and several TLC runs side by side
+    # (inside one check, or several checks at once) were killed by the kernel for it (rc=-9)
+    java.append("-Xmx" + (heap or os.environ.get("VERIF_TLC_HEAP", "6g")))
     java.append("-Xss64m")
     if deque:
         java.append("-Dtlc2.tool.queue.IStateQueue=StateDeque")
